@@ -329,3 +329,15 @@ func (w *World) ProveArgLen(call *ssa.Call, arg ssa.Value, min int64) Outcome {
 
 // IsByteSeq reports whether t is string or []byte.
 func IsByteSeq(t types.Type) bool { return isByteSeq(t.Underlying()) }
+
+// CtxBefore exposes the fact context immediately before an instruction.
+func (fi *FuncInfo) CtxBefore(in ssa.Instruction) *Ctx { return fi.ctxBefore(in) }
+
+// TermValue returns the SSA value and kind ("val"/"len") behind a term.
+func (fi *FuncInfo) TermValue(t lin.Term) (ssa.Value, bool) {
+	ti := fi.terms[t]
+	return ti.v, ti.kind == tLen
+}
+
+// LoadRep exposes the representative of a load (available-load analysis).
+func (fi *FuncInfo) LoadRep(u *ssa.UnOp) ssa.Value { return fi.loadRep(u) }
